@@ -247,6 +247,20 @@ func (g *genv) expr(t ty, depth int, allowConst bool) *expr {
 						return nil
 					}
 					ops := []string{"land", "lor"}
+					if t.S.Named != 0 && g.rng.Intn(4) != 0 {
+						// `(a < b) && c` with c of a defined boolean type is the shape of F12-19 (the comparison is typed bool):
+						// a program's class is that of its FIRST differing check site, so most generated programs give the
+						// comparison the defined type explicitly (`N(a < b) && c`) and keep the later sites visible;
+						// the raw shape stays in one program out of four and in the logical-cmp probes
+						wrap := func(e *expr) *expr {
+							if untypedBool(e) {
+								tt := t
+								return &expr{K: "conv", T: &tt, A: e}
+							}
+							return e
+						}
+						x, y = wrap(x), wrap(y)
+					}
 					return &expr{K: "bin", Op: ops[g.rng.Intn(2)], A: x, B: y}
 				})
 				alts = append(alts, func() *expr {
@@ -456,6 +470,11 @@ func (g *genv) stmt(depth int, rets []sty, inFunc bool) *stmt {
 			e := g.nonConst(t, 2)
 			if e == nil {
 				continue
+			}
+			if t.K == "s" && t.S.Named != 0 && untypedBool(e) {
+				// an untyped boolean value defines a variable of type bool, not of the defined type
+				tt := t
+				e = &expr{K: "conv", T: &tt, A: e}
 			}
 			g.vars = append(g.vars, t)
 			return &stmt{K: "define", E: e}
@@ -726,4 +745,17 @@ func genProgram(rng *rand.Rand, size int) *prog {
 		}
 	}
 	return p
+}
+
+// untypedBool: the expression is an untyped boolean value for Go (a comparison, or !, &&, || of such values)
+func untypedBool(e *expr) bool {
+	switch e.K {
+	case "cmp":
+		return true
+	case "un":
+		return e.Op == "not" && untypedBool(e.A)
+	case "bin":
+		return (e.Op == "land" || e.Op == "lor") && untypedBool(e.A) && untypedBool(e.B)
+	}
+	return false
 }
